@@ -311,7 +311,7 @@ macro_rules! default_api {
 
 pub fn run(ctx: &Ctx, rep: &mut Report) {
     rep.rule = "cases: (a) exhaustive: all strings of length <= 4 over a 10-byte alphabet (signs, 3 digits of the radix incl. the \
-        largest, a letter digit in both cases / first non-digit, '/', ':', 0x80) for u8/i8/u16/i16 x every radix; (b) generated: \
+        largest, a letter digit in both cases / first non-digit, '/', ':', the largest digit with its high bit set) for u8/i8/u16/i16 x every radix; (b) generated: \
         digit strings at MAX-2..MAX+2 / MIN-2..MIN+2, r^k-1..r^k+1, random lengths around overflow_digits and SWAR block sizes, \
         with sign variants, leading zeros, one injected near-digit byte and trailing junk, x 12 types x every radix x \
         no_multi_digit on/off; (c) default API vs the same reference and str::parse. Oracle: left-to-right reference scan with a \
@@ -334,7 +334,7 @@ pub fn run(ctx: &Ctx, rep: &mut Report) {
         let top = digit_char((radix - 1) as u8);
         let mid = digit_char(((radix - 1) / 2).max(1) as u8);
         let nondigit = if radix < 36 { digit_char(radix as u8) } else { b'[' };
-        let mut alpha: Vec<u8> = vec![b'+', b'-', b'0', mid, top, top.to_ascii_lowercase(), nondigit, b'/', b':', 0x80];
+        let mut alpha: Vec<u8> = vec![b'+', b'-', b'0', mid, top, top.to_ascii_lowercase(), nondigit, b'/', b':', top | 0x80];
         alpha.dedup();
         let a = alpha.len();
         let mut total = 0usize;
